@@ -4,11 +4,15 @@
 -/
 import UnifexModel.Driver.Entry
 import UnifexModel.Driver.Entries.StopSource
+import UnifexModel.Driver.Entries.Event
 
 namespace Unifex.Driver
 
 def table : List ModelEntries :=
   [ Entries.stopsource
+  , Entries.eventv1
+  , Entries.autoreset
+  , Entries.eventv2
   ]
 
 def lookup (m c : String) : Option Entry :=
